@@ -143,9 +143,11 @@ def gen_cases(tier):
             owners = [c for c in spec["comps"] if c["k"] not in LOADS]
             for mask in itertools.product((0, 1), repeat=len(owners)):
                 forms = [False, True] if any(mask) else [False]
+                if n == 4:
+                    forms = [True] if any(mask) else []
                 for by_rail in forms:
                     yield dict(fam="tree", f=f, pal=pal, mask=list(mask), by_rail=by_rail)
-                if n <= 2 or tier != "quick":
+                if n <= 2 or (tier != "quick" and n == 3):
                     for c in spec["comps"][1:]:
                         opts = pc_options(c, PH2, full=False)[1:2]
                         for pc in opts:
